@@ -39,7 +39,8 @@ type Obligation struct {
 	Solver string
 	Secs   float64
 	Model  string
-	idx    int // position in items
+	Stage  string // "" = decided in the function's incremental script; "retry" / "rescue" = only on its own
+	idx    int    // position in items
 }
 
 // Enc accumulates the SMT context for one root function.
@@ -63,6 +64,7 @@ type Enc struct {
 	privPkg    string // package path whose struct heaps are "private" for framing
 	items      []item
 	nfresh     int
+	freshRes   map[string]bool // call results declared fresh by their contracts (term names)
 	heapSort   map[string]string // heap name -> sort of the whole heap array
 	structDT   map[string]bool
 	strIDs     map[string]int
